@@ -59,10 +59,10 @@ def opSpecTiled : J.Op := fun j => do
 
 def opAxis : J.Op := fun j => do
   let shape ← J.field j "shape" (J.list J.nat)
-  let axis ← J.field j "axis" (J.list J.nat)
+  let axis ← J.field j "axis" (J.list J.int)
   let data ← J.field j "data" (J.list J.int)
   let perms ← J.field j "perms" (J.list (J.list J.nat))
-  ofExcept (J.ofList J.ofInt) (axisShuffle shape axis data perms)
+  ofExcept (J.ofList J.ofInt) (axisShuffleZ shape axis data perms)
 
 def opSlices : J.Op := fun j => do
   let shape ← J.field j "shape" (J.list J.nat)
@@ -72,7 +72,9 @@ def opSlices : J.Op := fun j => do
 
 def opSpecAxis : J.Op := fun j => do
   let shape ← J.field j "shape" (J.list J.nat)
-  let axis ← J.field j "axis" (J.list J.nat)
+  -- the axes as the caller requested them (either sign); the Spec speaks about the requested slices
+  let axisZ ← J.field j "axis" (J.list J.int)
+  let axis := axisReq shape.length axisZ
   let before ← J.field j "before" (J.list J.int)
   let after ← J.field j "after" (J.list J.int)
   let ok := before.length == shape.prod && specAxis shape axis before after
@@ -83,7 +85,8 @@ def opOutcross : J.Op := fun j => do
   let ncol ← J.field j "ncol" J.nat
   let x ← J.field j "x" (J.list J.int)
   let orders ← J.field j "orders" (J.list pairs)
-  ofExcept (J.ofList J.ofInt) (outcross nrow ncol x orders)
+  let cc ← J.fieldD j "c_contiguous" J.bool true
+  ofExcept (J.ofList J.ofInt) (outcrossNd cc nrow ncol x orders)
 
 def opSpecOutcross : J.Op := fun j => do
   let nrow ← J.field j "nrow" J.nat
@@ -92,7 +95,9 @@ def opSpecOutcross : J.Op := fun j => do
   let after ← J.field j "after" (J.list J.int)
   let v := specOutcross nrow ncol before after
   let ok := before.length == nrow * ncol && v.ok
-  pure (J.obj [("ok", J.ofBool ok), ("detail", J.ofStr
+  pure (J.obj [("ok", J.ofBool ok), ("multiset_ok", J.ofBool v.multOk), ("rows_worse", J.ofList J.ofNat v.rowsWorse),
+    ("improving", J.ofNat v.improving.length), ("total_ok", J.ofBool (decide (v.after ≤ v.before))),
+    ("detail", J.ofStr
     s!"multiset_ok={v.multOk} rows_worse={v.rowsWorse} improving_exchanges={v.improving.take 3} score={v.before}->{v.after}")])
 
 def ops : List (String × J.Op) :=
